@@ -44,8 +44,16 @@ def check(pm: ProgramModel, ctx: Ctx) -> None:
     from ..roundtrip import features as all_features
     models = tree_models(mb)
     models["rich"] = rich_model(mb)
+    from .c16 import edit_in_place
+    work = []
     for name, m in models.items():
-        it = Interp(pm)
+        work.append((name, m, False))
+        if name in ("bushy", "rich", "two-groups"):
+            work.append((name + ":edited-in-place", m, True))      # same object, edited after the first analysis
+    it = Interp(pm)
+    for name, m, edit in work:
+        if edit:
+            edit_in_place(mb, m)
         try:
             got = it.call(fn, [m])
         except AbsRaise as exc:
